@@ -296,8 +296,16 @@ def api_results_from_presentation(ctx: Context, rule_id: str = "R16g") -> None:
                 continue
             seen += 1
             key = func_key(func, node)
-            texts = [norm(a) for a in node.args] + [norm(k.value) for k in node.keywords]
-            missing = [field for field in wanted[name] if not any(f"presentation.{field}" in text for text in texts)]
+            exprs = list(node.args) + [k.value for k in node.keywords]
+            texts = [norm(a) for a in exprs]
+            captured = set()
+            for expr in exprs:
+                for sub in ast.walk(expr):
+                    if isinstance(sub, ast.Attribute):
+                        owner = prog.infer(func, sub.value)
+                        if owner and owner[0] == "cls" and owner[1].qualname == API_PRES:
+                            captured.add(sub.attr)
+            missing = [field for field in wanted[name] if field not in captured]
             if missing or len(texts) != len(wanted[name]):
                 rule.fail(key, where(func, node), f"{func.short} builds a {name} from {texts}: the result no longer reflects what the run reported ({wanted[name]} of the presentation), so the API disagrees with the command line (for example under the minimal return-code scheme)")
             else:
